@@ -736,3 +736,125 @@ class _M(object):
         raise llsym.Unsupported('match.group() on a symbolic match')
 
     groups = start = end = span = group
+
+
+# -----------------------------------------------------------------------------------------
+# Tok: a real `str` whose content is an opaque sentinel standing for a SymStr
+
+SENT_A, SENT_B = '', ''
+
+
+class Tok(str):
+    """A str *subclass* instance (so isinstance(x, str), '%s' %, str.join, f.write all work) whose
+    real content is a unique sentinel; `expand()` turns any real text containing sentinels back
+    into a SymStr.  Content-inspecting operations are overridden to act on the symbolic string."""
+
+    _table = {}
+
+    def __new__(cls, sym):
+        n = len(cls._table)
+        self = str.__new__(cls, '%s%x%s' % (SENT_A, n, SENT_B))
+        cls._table[n] = sym
+        self.sym = sym
+        return self
+
+    @classmethod
+    def reset(cls):
+        cls._table = {}
+
+    def __len__(self):
+        return len(self.sym)
+
+    def __str__(self):
+        return str.__str__(self)
+
+    def __eq__(self, o):
+        return self.sym == (o.sym if isinstance(o, Tok) else o)
+
+    def __ne__(self, o):
+        return self.sym != (o.sym if isinstance(o, Tok) else o)
+
+    def __lt__(self, o):
+        return self.sym < (o.sym if isinstance(o, Tok) else o)
+
+    def __le__(self, o):
+        return self.sym <= (o.sym if isinstance(o, Tok) else o)
+
+    def __gt__(self, o):
+        return self.sym > (o.sym if isinstance(o, Tok) else o)
+
+    def __ge__(self, o):
+        return self.sym >= (o.sym if isinstance(o, Tok) else o)
+
+    def __hash__(self):
+        return hash(self.sym)
+
+
+def expand(ex, text):
+    """real text with sentinels -> SymStr / str"""
+    out = []
+    i = 0
+    while i < len(text):
+        ch = text[i]
+        if ch == SENT_A:
+            j = text.index(SENT_B, i)
+            sym = Tok._table[int(text[i + 1:j], 16)]
+            out.extend(sym.chars if isinstance(sym, SymStr) else [ord(c) for c in sym])
+            i = j + 1
+        else:
+            out.append(ord(ch))
+            i += 1
+    if all(isinstance(c, int) for c in out):
+        return ''.join(chr(c) for c in out)
+    return SymStr(ex, out)
+
+
+def _tokwrap(v):
+    if isinstance(v, SymStr):
+        return Tok(v)
+    if isinstance(v, (list, tuple)):
+        return type(v)(_tokwrap(x) for x in v)
+    return v
+
+
+for _name in ('lstrip', 'rstrip', 'strip', 'lower', 'upper', 'split', 'partition', 'replace'):
+    def _mk(name):
+        def method(self, *a, **k):
+            return _tokwrap(getattr(self.sym, name)(*a, **k))
+        return method
+    setattr(Tok, _name, _mk(_name))
+for _name in ('startswith', 'endswith', 'find', 'rfind', 'index', 'count', 'isspace', 'isdigit', '__contains__'):
+    def _mk2(name):
+        def method(self, *a, **k):
+            return getattr(self.sym, name)(*a, **k)
+        return method
+    setattr(Tok, _name, _mk2(_name))
+
+
+def _tok_getitem(self, i):
+    return _tokwrap(self.sym[i])
+
+
+Tok.__getitem__ = _tok_getitem
+
+
+def sym_hex(x):
+    """hex() for SymInt arguments (non-negative, < 2**32): forks on the number of hex digits"""
+    from .pysym import SymInt
+    if not isinstance(x, SymInt):
+        return hex(x)
+    ex = x.ex
+    t = x.t
+    if x.mode == 'int':
+        raise llsym.Unsupported('hex() of an Int-backed symbolic int')
+    W = t.size()
+    ex.assume(z3.And(t >= 0, t < (1 << 32)))
+    nd = 1
+    while nd < 8 and ex.decide(z3.UGE(t, 1 << (4 * nd))):
+        nd += 1
+    chars = [ord('0'), ord('x')]
+    for k in range(nd - 1, -1, -1):
+        nib = z3.Extract(CW - 1, 0, z3.ZeroExt(CW, z3.LShR(t, 4 * k) & 15)) if W >= CW else None
+        nib = z3.ZeroExt(CW - 4, z3.Extract(3, 0, z3.LShR(t, 4 * k)))
+        chars.append(z3.If(z3.ULT(nib, 10), nib + 48, nib + 87))
+    return Tok(SymStr(ex, chars))
